@@ -9,6 +9,8 @@
 // RETIRED+id (1 once handed to reclaim).
 #include "harness/common.h"
 
+#include <xenium/acquire_guard.hpp>
+
 using namespace xmc;
 
 namespace {
@@ -109,8 +111,7 @@ struct Proto {
           if (g) deref(g, -1, "acquire in region");
         }
         {
-          GP g;
-          g.acquire(c, std::memory_order_acquire);
+          GP g = xenium::acquire_guard(c, std::memory_order_acquire); // the helper of xenium/acquire_guard.hpp
           if (g) deref(g, -1, "second acquire in region");
         }
         break;
@@ -411,6 +412,11 @@ REG("nebr", rec::NEBR, true);
 REG("debra", rec::DEBRA, true);
 REG("gebr_lazy", rec::GEBR_LAZY, true);
 REG("gebr_thr", rec::GEBR_THR, true);
+REG("ebr_f2", rec::EBR_F2, true);
+REG("debra_f1", rec::DEBRA_F1, true);
+REG("gebr_f3", rec::GEBR_F3, true);
+REG("hp_b2", rec::HPs_B2, true);
+REG("hed_b2", rec::HEd_B2, true);
 REG("stamp", rec::STAMP, true);
 REG("lfrc", rec::LFRC, false);
 REG("lfrc_tl", rec::LFRC_TL, false);
